@@ -62,6 +62,9 @@ f_isnan = z3.Function("is_nan", FloatS, BoolS)
 f_isinf = z3.Function("is_inf", FloatS, BoolS)
 round_he = z3.Function("round_he", FloatS, IntS)
 local_epoch = z3.Function("local_epoch", IntS, IntS)  # calendar.timegm(time.localtime()) at tick i
+av_valid = z3.Function("av_valid", StrS, BoolS)  # AwesomeVersion(s).valid
+av_section = z3.Function("av_section", StrS, IntS, IntS)  # AwesomeVersion(s).section(i)
+av_nsec = z3.Function("av_sections", StrS, IntS)  # AwesomeVersion(s).sections
 rstrip_f = z3.Function("rstrip", StrS, StrS)
 ends_ws = z3.Function("ends_ws", StrS, BoolS)
 
@@ -104,6 +107,7 @@ class Lib:
         for name, cls in self.exc.items():
             self.builtins.setdefault(name, cls)
         self.ext_calls = {}
+        self.opaque_attrs = {}
         self.install_models()
 
     # ------------------------------------------------------------------ names
@@ -231,6 +235,18 @@ class Lib:
     def model_order_compare(self, I, op, a, b):
         if isinstance(a, LibObj) and a.kind == "awesomeversion":
             return self.av_compare(I, op, a, b)
+        if isinstance(a, tuple) and isinstance(b, tuple) and len(a) == len(b):
+            # lexicographic comparison of equal-length int tuples
+            ia, ib = [I.intv(x) for x in a], [I.intv(x) for x in b]
+            if any(x is None for x in ia + ib):
+                return MISSING
+            strict = isinstance(op, (ast.Gt, ast.Lt))
+            less = isinstance(op, (ast.Lt, ast.LtE))
+            r = z3.BoolVal(not strict)
+            for x, y in reversed(list(zip(ia, ib))):
+                x, y = (z3.IntVal(x) if isinstance(x, int) else x), (z3.IntVal(y) if isinstance(y, int) else y)
+                r = z3.Or(x < y, z3.And(x == y, r)) if less else z3.Or(x > y, z3.And(x == y, r))
+            return I.mk(r, "bool")
         return MISSING
 
     def contains(self, I, cont, x, fr):
@@ -393,6 +409,14 @@ class Lib:
         return r
 
     def model_obj_attr(self, I, o, name, fr, node):
+        cls = self.w.class_by_name(tname(o.typ)) if o.typ.kind == "obj" else None
+        if cls is not None and any(b.startswith("marshmallow.") and b.endswith("Schema") for b in cls.ext_bases()):
+            from . import mm
+            return mm.schema_attr(self, I, o, cls, name, fr, node)
+        if o.typ.kind in ("opaque", "obj"):
+            h = self.opaque_attrs.get(tname(o.typ))
+            if h is not None:
+                return h(I, o, name, fr, node)
         return MISSING
 
     def exc_attr(self, I, e, name):
